@@ -24,6 +24,8 @@ func main() {
 		os.Exit(cmdCheck(os.Args[2:]))
 	case "replay":
 		os.Exit(cmdReplay(os.Args[2:]))
+	case "conform":
+		os.Exit(cmdConform(os.Args[2:]))
 	default:
 		fmt.Fprintln(os.Stderr, "unknown command", os.Args[1])
 		os.Exit(2)
@@ -142,6 +144,7 @@ func cmdCheck(args []string) int {
 	nworkers := fs.Int("workers", 0, "worker count")
 	noEvidence := fs.Bool("no-evidence", false, "do not write the evidence file")
 	verbose := fs.Bool("v", false, "verbose")
+	cross := fs.Bool("cross", false, "re-discharge sampled assertion queries with cvc5 and z3-new (always on in the thorough tier)")
 	fs.Parse(args)
 	if t := os.Getenv("VERIF_TIER"); t != "" && !isFlagSet(fs, "tier") {
 		*tier = t
@@ -237,7 +240,11 @@ func cmdCheck(args []string) int {
 			continue
 		}
 		l.pkg = pkg
+		for _, w := range ws {
+			w.in.sol.record = *tier == "thorough" || *cross
+		}
 		l.explore(ws, entry)
+		l.crossCheck()
 		status := "holds"
 		if len(l.ViolCount) > 0 {
 			status = "COUNTEREXAMPLE"
@@ -439,6 +446,7 @@ func writeEvidence(verifRoot, prop, tier string, seed int, runs []*LemmaRun, vio
 			"symbolic_mul_div_ops":  l.SymMulDiv,
 			"opaque_strings":        l.Opaque,
 			"known_finding_hits":    l.KnownHits,
+			"second_solver_check":   map[string]any{"queries_sampled": len(l.Cross), "agree": l.CrossAgree, "disagree": l.CrossDisagree, "results": l.CrossOther},
 			"package_init_failures": l.InitFail,
 			"inconclusive":          l.Inconcl,
 			"counterexamples":       viols,
